@@ -551,6 +551,10 @@ def units(prop, tier):
             us.append(pyvc_unit(prop, 'hpke.init.' + _slug(c), registry_for(c), [HC + '.__init__'], weight=w))
             us.append(pyvc_unit(prop, 'hpke.new.' + _slug(c), registry_for(c), [H + 'new'], weight=w + 1))
         return us
+    if prop == 'C12':
+        # RFC 5869's L <= 255*HashLen is an obligation at every call site of _HKDF_expand: HPKE's are in _labeled_expand and its callers
+        return [pyvc_unit(prop, 'hpke.labeled', registry, [H + '_labeled_extract', H + '_labeled_expand', H + '_extract_and_expand']),
+                pyvc_unit(prop, 'hpke.key_schedule', registry, [HC + '._key_schedule'])]
     if prop == 'C11':
         # successive HPKE messages never share a nonce: _new_cipher (nonce == base_nonce xor I2OSP(seq, 12), seq' = seq + 1, refusal at
         # the limit with nothing changed), seal, the sender's induction step, and injectivity of the nonce in seq
